@@ -48,7 +48,6 @@ structure ExtrasC (cobs : List Nat) (Hd : List (LockId × Bool)) (cg : Bool) (sb
   slot1 : w.slots[1]? = some none
   slot2 : w.slots[2]? = some (some (onSubHook rcC srcC fnP feP fcP))
   slot3 : w.slots[3]? = some (some (onUnsubHook rcC))
-  obsvH : w.obsvs[0]? = some Hp.observable
   obsvS : w.obsvs[1]? = some Sp.observable
   cellG : w.cells[4]? = some (.bool cg)
   cellB : w.cells[5]? = some (subCell cobs sb)
@@ -59,7 +58,7 @@ structure ExtrasC (cobs : List Nat) (Hd : List (LockId × Bool)) (cg : Bool) (sb
 theorem ExtrasC.touch {cobs Hd cg sb cn w w' J K} (h : ExtrasC cobs Hd cg sb cn w) (t : Touch J K w w')
     (hK : ¬ K 4 ∧ ¬ K 5 ∧ ¬ K 6) : ExtrasC cobs Hd cg sb cn w' :=
   ⟨t.held ▸ h.held, t.slots ▸ h.slot0, t.slots ▸ h.slot1, t.slots ▸ h.slot2, t.slots ▸ h.slot3,
-   t.obsvs ▸ h.obsvH, t.obsvs ▸ h.obsvS, by rw [t.cells _ hK.1]; exact h.cellG,
+   t.obsvs ▸ h.obsvS, by rw [t.cells _ hK.1]; exact h.cellG,
    by rw [t.cells _ hK.2.1]; exact h.cellB, by rw [t.cells _ hK.2.2]; exact h.cellN, t.cellsLen ▸ h.nCells, h.sbLt⟩
 
 /-- the users' side of a ref_count world (the three flags are constants of a broadcast) -/
